@@ -190,6 +190,26 @@ impl<'a> Ctx<'a> {
 				out.push(viol("slp_write_twice", &cls, "mismatch", "two writes of the same game differ".into()));
 			}
 		}
+		// the replay does not start at position 0 of its stream
+		{
+			let k = 1 + (crate::util::fnv(&self.built.bytes) % 300) as usize;
+			let mut data = vec![0x7Bu8; k];
+			data.extend_from_slice(&self.built.bytes);
+			data.extend_from_slice(b"U\x03raw");
+			let mut cur = std::io::Cursor::new(&data[..]);
+			cur.set_position(k as u64);
+			match guard(|| slippi::read(&mut cur, None)) {
+				Outcome::Ok(g2) => match real::write_slp(&g2) {
+					Outcome::Ok(w) => {
+						if let Some(i) = first_diff(&w, &self.built.bytes) {
+							out.push(viol("slp_roundtrip_stream_offset", &cls, "mismatch", format!("replay at stream offset {}: written file differs at byte {}", k, i)));
+						}
+					}
+					o => out.push(outcome_viol("slp_roundtrip_stream_offset", &cls, &o)),
+				},
+				o => out.push(viol("slp_roundtrip_stream_offset", &cls, o.kind(), format!("replay at stream offset {}: {}", k, o.detail()))),
+			}
+		}
 		// read with the debug option (dumps every event into a directory): the game is the same game
 		if crate::util::fnv(&self.built.bytes) % 8 == 0 && self.built.bytes.len() < 1 << 20 {
 			let dir = std::env::temp_dir().join(format!("pv-debug-{}-{:x}", std::process::id(), crate::util::fnv(&self.built.bytes)));
